@@ -75,7 +75,7 @@ macro_rules! gate {
 
 pub(crate) fn process<'t>(name: &'t str, regs: Vec<N>, args: Vec<R>) -> Result<'t, MultiOp> {
     match name {
-        s if matches!(&s[..1], "c" | "C") => {
+        s if s.starts_with(['c', 'C']) => {
             let (&ctrl, regs) = regs.split_first().ok_or(Error::WrongRegNumber(name, 0))?;
 
             match process(&name[1..], regs.into(), args) {
